@@ -69,7 +69,12 @@ def distance_to_similarity(D, r=None, a=None, method='exponential', return_param
             if cover_quantile is False:
                 a = 1
             else:
-                a = (1 - cover_quantile_target * r) / (cover_quantile_target * np.quantile(D, cover_quantile))
+                q = np.quantile(D, cover_quantile)
+                if q == 0:
+                    # Only zero distances to cover, they have similarity 1/r for any slope
+                    a = 1
+                else:
+                    a = (1 - cover_quantile_target * r) / (cover_quantile_target * q)
         S = 1 / (r + D*a)
     elif method == 'reverse':
         if r is None:
